@@ -272,6 +272,8 @@ type layoutSpec struct {
 	Inner []string `json:"inner,omitempty"`
 	// OpenEnd: the text ends right after the last comment, without the line break that normally follows it
 	OpenEnd bool `json:"open_end,omitempty"`
+	// Glue[i]: comment i follows the token before it directly, with no blank in between
+	Glue []bool `json:"glue,omitempty"`
 }
 
 // respellSize inserts whitespace inside the brackets of a size token: after '[', around '..', before ']'.
@@ -415,6 +417,8 @@ func genLayout(t *rapid.T, toks []model.Tok, comments bool, opts ...bool) layout
 		}
 		ls.Seps = append(ls.Seps, sep)
 		ls.Comments = append(ls.Comments, cm)
+		// the comment may follow its token directly, without a blank ("x//note"), unless that would make "///"
+		ls.Glue = append(ls.Glue, cm != "" && !strings.HasSuffix(toks[i-1].Text, "/") && rapid.IntRange(0, 3).Draw(t, "glueComment") == 3)
 	}
 	if n := len(ls.Comments); openEnd && n > 0 && ls.Comments[n-1] != "" && rapid.Bool().Draw(t, "openEnd") {
 		ls.OpenEnd = true
@@ -442,7 +446,10 @@ func render(toks []model.Tok, ls layoutSpec) (string, []int) {
 	}
 	if len(ls.Seps) >= len(toks) && len(toks) > 0 {
 		if ls.OpenEnd && ls.Comments[len(toks)-1] != "" {
-			sb.WriteString(" //")
+			if !ls.glued(len(toks) - 1) {
+				sb.WriteByte(' ')
+			}
+			sb.WriteString("//")
 			sb.WriteString(strings.TrimRight(ls.Comments[len(toks)-1], " \t\r"))
 		} else {
 			writeSep(&sb, ls, len(toks)-1)
@@ -451,13 +458,18 @@ func render(toks []model.Tok, ls layoutSpec) (string, []int) {
 	return sb.String(), offs
 }
 
+func (ls layoutSpec) glued(i int) bool { return i < len(ls.Glue) && ls.Glue[i] }
+
 func writeSep(sb *strings.Builder, ls layoutSpec, i int) {
 	if i >= len(ls.Seps) {
 		sb.WriteByte(' ')
 		return
 	}
 	if ls.Comments[i] != "" {
-		sb.WriteString(" //")
+		if !ls.glued(i) {
+			sb.WriteByte(' ')
+		}
+		sb.WriteString("//")
 		sb.WriteString(ls.Comments[i])
 		sb.WriteString("\n")
 	}
